@@ -37,6 +37,15 @@ pub proof fn lemma_latest_weight_frame(s0: Storage, k: (Seq<char>, Seq<char>, u6
         assert(e0 == e1);
     }
 }
+/// the latest weight is the snapshot at the greatest epoch
+pub proof fn lemma_latest_is(s: Storage, a: Seq<char>, lp: Seq<char>, l: u64)
+    requires has_weight(s, a, lp, l), forall|k: u64| has_weight(s, a, lp, k) ==> k <= l,
+    ensures latest_weight(s, a, lp) == s.weights@[(a, lp, l)]@,
+{
+    let e = choose|e: u64| has_weight(s, a, lp, e) && forall|e2: u64| has_weight(s, a, lp, e2) ==> e2 <= e;
+    assert(has_weight(s, a, lp, e) && forall|e2: u64| has_weight(s, a, lp, e2) ==> e2 <= e);
+    assert(e <= l && l <= e);
+}
 /// a non-empty set of u64 epochs has a greatest element
 pub proof fn lemma_latest_exists(s: Storage, a: Seq<char>, lp: Seq<char>)
     requires exists|e: u64| has_weight(s, a, lp, e),
